@@ -295,6 +295,13 @@ def _run_history(ctx, rng, case):
             steps.append([tag, verb, path, repr(params), repr(data), repr(headers)])
             del log[:]
             n_before = len(op.reqs)
+            if rng.random() < 0.25:
+                # somebody looks at the connection (its description is composed on demand and cached)
+                try:
+                    str(c), repr(c)
+                    ctx.count("connections_described_between_requests")
+                except Exception:
+                    ctx.count("describing_a_connection_raises(observed)")
             try:
                 ret = getattr(c, verb)(path, params=params, data=data, headers=headers)
             except Exception as err:
